@@ -124,6 +124,9 @@ pub enum DataCmdType {
     Smove,
     Spop,
     Srem,
+    Sdiffstore,
+    Sinterstore,
+    Sunionstore,
     // Sorted Set commands
     Zpopmax,
     Zpopmin,
@@ -131,6 +134,8 @@ pub enum DataCmdType {
     Zremrangebylex,
     Zremrangebyrank,
     Zremrangebyscore,
+    Zinterstore,
+    Zunionstore,
     Bzpopmin,
     Bzpopmax,
     // Key commands
@@ -214,6 +219,11 @@ impl DataCmdType {
             b"SMOVE" => DataCmdType::Smove,
             b"SPOP" => DataCmdType::Spop,
             b"SREM" => DataCmdType::Srem,
+            b"SDIFFSTORE" => DataCmdType::Sdiffstore,
+            b"SINTERSTORE" => DataCmdType::Sinterstore,
+            b"SUNIONSTORE" => DataCmdType::Sunionstore,
+            b"ZINTERSTORE" => DataCmdType::Zinterstore,
+            b"ZUNIONSTORE" => DataCmdType::Zunionstore,
             b"UNLINK" => DataCmdType::Unlink,
             b"ZPOPMAX" => DataCmdType::Zpopmax,
             b"ZPOPMIN" => DataCmdType::Zpopmin,
@@ -262,6 +272,12 @@ pub fn requires_blocking_migration(data_cmd_type: DataCmdType) -> bool {
             | DataCmdType::Smove
             | DataCmdType::Spop
             | DataCmdType::Srem
+            // `*STORE` with an empty result deletes the destination key (their first argument).
+            | DataCmdType::Sdiffstore
+            | DataCmdType::Sinterstore
+            | DataCmdType::Sunionstore
+            | DataCmdType::Zinterstore
+            | DataCmdType::Zunionstore
             | DataCmdType::Unlink
             | DataCmdType::Zpopmax
             | DataCmdType::Zpopmin
